@@ -58,9 +58,12 @@ theorem namedSound_of (cfg : Cfg) (env : Env) (m : Nat) (h : Sound cfg env m) :
   cases hf : env.find id with
   | none => simp [hf] at hN
   | some it =>
-    simp only [hf, Option.map_some, Option.some.injEq] at hN
-    subst hN
-    exact h id args v j it targs hf hargs hs hc
+    simp only [hf, Option.bind_some] at hN
+    split at hN
+    · simp only [Option.some.injEq] at hN
+      subst hN
+      exact h id args v j it targs hf hargs hs hc
+    · cases hN
 
 /-- a value of any type built from library constructors over user types -/
 theorem serTy_sound (cfg : Cfg) (env : Env) (n : Nat) (hS : ∀ m, m < n → Sound cfg env m)
@@ -73,15 +76,23 @@ theorem serTy_sound (cfg : Cfg) (env : Env) (n : Nat) (hS : ∀ m, m < n → Sou
     simp only [Serde.serTy] at hs
     exact C12_sound_over _ cfg.limit (nameN env) _ (namedSound_of cfg env f' (hS f' (by omega))) t v T j hT hs hc
 
+theorem substList_len (σ : List (Str × Ts)) : ∀ (ts : List Ts), (Ts.substList σ ts).length = ts.length
+  | [] => by simp [Ts.substList]
+  | t :: ts => by simp [Ts.substList, substList_len σ ts]
+
 theorem nameN_commutes (env : Env) : NCommutes (nameN env) := by
   intro id xs T σ h
   unfold nameN at h ⊢
   cases hf : env.find id with
   | none => simp [hf] at h
   | some it =>
-    simp only [hf, Option.map_some, Option.some.injEq] at h ⊢
-    subst h
-    simp [Ts.subst]
+    simp only [hf, Option.bind_some] at h ⊢
+    split at h
+    · rename_i hl
+      simp only [Option.some.injEq] at h
+      subst h
+      simp [Ts.subst, substList_len, hl]
+    · cases h
 
 /-- values of field types under a substitution of the item's parameters: `σ` on the Rust side, `σ'` (the names of the same
 arguments) on the TypeScript side -/
